@@ -6,15 +6,18 @@ PROP = {
              "children, optional group_by_header) loaded from YAML through the public engine API, one Limiter->429 flow per quota; histories of "
              "<=40 steps {advance by offsets around the window size, jump to a window end +-1ns/1ms, request(level, group)} on a harness-owned "
              "virtual clock, optionally ended by a burst of 2-12 concurrent requests at a frozen instant. Non-trivial: the history contains >=1 "
-             "refusal and >=1 window restart, or a burst larger than the remaining capacity. distinct = canonical JSON of config+history"),
+             "refusal and >=1 window restart, or a burst larger than the remaining capacity. distinct = canonical JSON of config+history. "
+             "Unit TestSeveralQuotasPerRequest: two independent quotas A, B (max 1-4, interval 1-5 s|min, optional group header) plus an optional quota no flow references, flows with one Limiter (h.com/a, h.com/b) "
+             "and with two chained Limiters (h.com/ab, h.com/ba), histories of 4-40 {advance, jump to a window end of A or B, request(url, group)}; non-trivial: a history with a refusal and a request through two limiters"),
     "assumptions": [
         "in-memory shared state only (the Redis-backed state is in the absent `pro` build)",
         "spill-over and monthly renewal are excluded: they read time.Now() directly and cannot be driven by the virtual clock",
-        "every quota is referenced by a Limiter (unreferenced quotas only count through their system flow and refuse nothing)",
+        "in the hierarchy unit every quota is referenced by a Limiter; the second unit adds a quota that no flow references (it only counts through its system flow and must refuse nothing) and requests that consult two quotas in a row (a request refused by the second Limiter has already been counted by the first, as in a parent/child chain)",
         "sequential exactness is judged against an independent counter model in two variants (window start kept with 1 s resolution, or exact); the whole history must agree with one of them",
     ],
     "units": [
         {"pkg": "c01", "test": "TestFixedWindowHistories", "quick": 600, "thorough": 6000, "shards": 16},
+        {"pkg": "c01", "test": "TestSeveralQuotasPerRequest", "quick": 300, "thorough": 3000, "shards": 8},
     ],
     "technique": "stateful property-based testing (rapid) of the real engine on a virtual clock; oracle = independent hierarchical window-counter model (exactness) + per-window admission bound from observed verdicts",
     "level_text": ("generated quota hierarchies are loaded through the real loader and driven request by request through Stream.ExecuteFlow on a virtual clock; "
